@@ -293,6 +293,12 @@ def slope_case(draw):
     ys = draw(st.lists(base, min_size=n, max_size=n))
     if len(set(xs)) == 1:
         xs[0] = xs[0] + 1
+    off = draw(st.sampled_from([0, 0, 0, 44000, 100000, 1000000, -250000]))
+    if off:
+        # x values with a small spread around a large offset (day serials, years in the hundred thousands): integers, so that the sums stay exact
+        xs = [off + int(round(x)) for x in xs]
+        if len(set(xs)) == 1:
+            xs[0] += 1
     perm = draw(st.permutations(list(range(n))))
     return {'xs': xs, 'ys': ys, 'perm': list(perm), 'lit': draw(st.booleans())}
 
